@@ -360,6 +360,14 @@ impl RuleST05 {
                         continue;
                     };
 
+                    // Only a source that *is* a bracketed query can become a CTE. A table
+                    // function that merely has a query among its arguments (`f((SELECT ...))`,
+                    // and `LATERAL (SELECT ...)` where the dialect reads it as one) or a lateral
+                    // subquery cannot: `WITH b AS f((SELECT ...))` is not SQL.
+                    if !is_plain_subquery(&table_alias.from_expression_element) {
+                        continue;
+                    }
+
                     let path_to = selectable
                         .selectable
                         .path_to(&table_alias.from_expression_element);
@@ -406,6 +414,25 @@ impl RuleST05 {
 
         acc
     }
+}
+
+fn is_plain_subquery(from_expression_element: &ErasedSegment) -> bool {
+    let mut code = from_expression_element
+        .segments()
+        .iter()
+        .filter(|it| it.is_code());
+    let Some(first) = code.next() else {
+        return false;
+    };
+    if !first.is_type(SyntaxKind::TableExpression) {
+        // LATERAL, ONLY, ... in front of the table expression
+        return false;
+    }
+    first
+        .segments()
+        .iter()
+        .find(|it| it.is_code())
+        .is_some_and(|it| it.is_type(SyntaxKind::Bracketed))
 }
 
 fn get_first_select_statement_descendant(segment: &ErasedSegment) -> Option<ErasedSegment> {
